@@ -63,7 +63,7 @@ macro_rules! prim {
         }
     )*};
 }
-prim!(u8, u16, u32, u64, u128, usize, i8, i16, i32, i64, i128, isize);
+prim!(u8, u16, u32, u64, u128, usize, i8, i16, i32, i64, i128, isize, f32, f64);
 
 impl Arbitrary for bool {
     fn any() -> Self {
@@ -72,35 +72,10 @@ impl Arbitrary for bool {
     }
 }
 
-// Kani draws a primitive array with ONE raw call of N * size_of::<T>() bytes.
-macro_rules! prim_array {
-    ($($t:ty),*) => {$(
-        impl<const N: usize> Arbitrary for [$t; N] {
-            fn any() -> Self {
-                let sz = core::mem::size_of::<$t>();
-                let b = next(N * sz);
-                let mut out = [0 as $t; N];
-                let mut i = 0;
-                while i < N {
-                    let mut a = [0u8; core::mem::size_of::<$t>()];
-                    a.copy_from_slice(&b[i * sz..(i + 1) * sz]);
-                    out[i] = <$t>::from_le_bytes(a);
-                    i += 1;
-                }
-                out
-            }
-        }
-    )*};
-}
-prim_array!(u8, u16, u32, u64, u128, usize);
-
-impl<const N: usize> Arbitrary for [bool; N] {
+// Kani's concrete playback lists an array element by element.
+impl<T: Arbitrary, const N: usize> Arbitrary for [T; N] {
     fn any() -> Self {
-        let mut out = [false; N];
-        for o in out.iter_mut() {
-            *o = bool::any();
-        }
-        out
+        core::array::from_fn(|_| T::any())
     }
 }
 
